@@ -234,28 +234,38 @@ Proof.
     + rewrite (IH H), orb_true_r. reflexivity.
 Qed.
 
-Theorem rename_emulated_refines : forall F old new st (w : sworld sstate),
-  c_auth st = true -> has_cap (bs "VERSION") st = false -> ok_world w -> names_ok (s_peer sstate w) ->
-  length (s_store (s_peer sstate w)) < F -> 3 <= F ->
-  let s := s_peer sstate w in
+Lemma listing_of_same_data : forall s t, same_data s t -> listing_of t = listing_of s.
+Proof.
+  intros s t (A & B & _). unfold listing_of, listing_active, listing_others. rewrite A, B. reflexivity.
+Qed.
+
+(* stated against an abstract state that agrees with the server on store, active script and configuration *)
+Theorem rename_emulated_refines_st : forall F old new st (w : sworld sstate) s,
+  c_auth st = true -> has_cap (bs "VERSION") st = false -> ok_world w -> same_data s (s_peer sstate w) ->
+  names_ok s -> length (s_store s) < F -> 3 <= F ->
   exists out w',
     runS (renamescript F old new st finish) w = (out, w') /\
     aresult_of out = Some (fst (rename_abs (fun _ => FNone) s old new)) /\
-    ok_world w' /\ same_data (snd (rename_abs (fun _ => FNone) s old new)) (s_peer sstate w').
+    ok_world w' /\ same_data (snd (rename_abs (fun _ => FNone) s old new)) (s_peer sstate w') /\
+    c_auth (outcome_state out) = true /\ c_caps (outcome_state out) = c_caps st.
 Proof.
-  intros F old new st w Ha Hver Hw Hn HF1 HF3 s.
+  intros F old new st w s Ha Hver Hw D0 Hn HF1 HF3.
   unfold renamescript, auth_required. rewrite Ha, Hver.
   (* LISTSCRIPTS *)
-  match goal with |- context [listscripts F st ?k0] => destruct (listscripts_fuel F st w k0 Ha Hw Hn HF1) as (w1 & R1 & Hw1 & D1) end. rewrite R1. clear R1. fold s in D1 |- *.
+  assert (Hn0 : names_ok (s_peer sstate w)) by (unfold names_ok in *; destruct D0 as (X & _); rewrite X; exact Hn).
+  assert (HF0 : length (s_store (s_peer sstate w)) < F) by (destruct D0 as (X & _); rewrite X; exact HF1).
+  match goal with |- context [listscripts F st ?k0] => destruct (listscripts_fuel F st w k0 Ha Hw Hn0 HF0) as (w1 & R1 & Hw1 & D1') end. rewrite R1. clear R1.
+  rewrite (listing_of_same_data _ _ D0).
+  pose proof (same_data_trans _ _ _ D0 D1') as D1. clear D1'.
   unfold rename_abs. cbn [run_cmd]. change (exec_command (bs "LISTSCRIPTS") [] s) with (Some (AnsListing, s)). cbv iota.
   destruct (listing_of s) as [active others] eqn:El. cbn [fst snd].
   assert (Hla : listing_active s = active) by (unfold listing_of in El; congruence).
   assert (Hlo : listing_others s = others) by (unfold listing_of in El; congruence).
   destruct (negb (opt_beq (Some old) active) && negb (mem old others)) eqn:Eold.
   { (* the old script does not exist *)
-    eexists. eexists. split; [reflexivity|]. split; [reflexivity|]. split; [exact Hw1|exact D1]. }
+    eexists. eexists. split; [reflexivity|]. split; [reflexivity|]. split; [exact Hw1|]. split; [exact D1|]. cbn; auto. }
   destruct (opt_beq (Some new) active || mem new others) eqn:Enew.
-  { eexists. eexists. split; [reflexivity|]. split; [reflexivity|]. split; [exact Hw1|exact D1]. }
+  { eexists. eexists. split; [reflexivity|]. split; [reflexivity|]. split; [exact Hw1|]. split; [exact D1|]. cbn; auto. }
   (* GETSCRIPT old *)
   rewrite <- Hla, <- Hlo in Eold. destruct (in_listing_exists s old Eold) as (c & Hget).
   assert (Hget1 : assoc_get old (s_store (s_peer sstate w1)) = Some c) by (destruct D1 as (X & _); rewrite X; exact Hget).
@@ -273,7 +283,7 @@ Proof.
     destruct (simple_fuel F (bs "PUTSCRIPT") [AStr new; ALit (norm c)] st w2 s a3 s3 k0 ltac:(cbn; tauto) Hw2 D12 Eput ltac:(lia))
       as (c3 & w3 & R3 & Hw3 & D3) end. rewrite R3. clear R3.
   destruct (exec_simple_shape (bs "PUTSCRIPT") _ _ _ _ ltac:(cbn; tauto) Eput) as [(code3 & ->)|(code3 & -> & ->)]; cbn [answer_bool answer_state].
-  2:{ eexists. eexists. split; [reflexivity|]. split; [reflexivity|]. split; [exact Hw3|exact D3]. }
+  2:{ eexists. eexists. split; [reflexivity|]. split; [reflexivity|]. split; [exact Hw3|]. split; [exact D3|]. cbn; auto. }
   (* the copy exists: activate it if the old one was active, then delete the old one *)
   assert (Hdel : forall st0 (w0 : sworld sstate) sabs,
             c_auth st0 = true -> ok_world w0 -> same_data sabs (s_peer sstate w0) ->
@@ -283,7 +293,8 @@ Proof.
                                                           | _ => finish st1 (VBool false)
                                                           end)) w0 = (out, w') /\
               aresult_of out = Some (fst (rename_del FNone sabs old)) /\ ok_world w' /\
-              same_data (snd (rename_del FNone sabs old)) (s_peer sstate w')).
+              same_data (snd (rename_del FNone sabs old)) (s_peer sstate w') /\
+              c_auth (outcome_state out) = true /\ c_caps (outcome_state out) = c_caps st0).
   { intros st0 w0 sabs Ha0 Hw0 Hd0. unfold deletescript, auth_required. rewrite Ha0. unfold rename_del, run_cmd.
     destruct (exec_command (bs "DELETESCRIPT") [PStr old] sabs) as [[a5 s5]|] eqn:Edel.
     2:{ exfalso. revert Edel. rewrite exec_del. repeat match goal with |- (if ?c then _ else _) = _ -> _ => destruct c end; intro X; discriminate X. }
@@ -291,7 +302,7 @@ Proof.
       destruct (simple_fuel F (bs "DELETESCRIPT") [AStr old] st0 w0 sabs a5 s5 k0 ltac:(cbn; tauto) Hw0 Hd0 Edel ltac:(lia))
         as (c5 & w5 & R5 & Hw5 & D5) end. rewrite R5.
     destruct (exec_simple_shape (bs "DELETESCRIPT") _ _ _ _ ltac:(cbn; tauto) Edel) as [(code5 & ->)|(code5 & -> & ->)]; cbn [answer_bool answer_state];
-      eexists; eexists; (split; [reflexivity|]); (split; [reflexivity|]); (split; [exact Hw5|exact D5]). }
+      eexists; eexists; (split; [reflexivity|]); (split; [reflexivity|]); (split; [exact Hw5|]); (split; [exact D5|]); cbn; auto. }
   rewrite <- Hla.
   destruct (opt_beq (listing_active s) (Some old)) eqn:Eact.
   - (* SETACTIVE new *)
@@ -304,8 +315,22 @@ Proof.
         as (c4 & w4 & R4 & Hw4 & D4) end. rewrite R4. clear R4.
     destruct (exec_simple_shape (bs "SETACTIVE") _ _ _ _ ltac:(cbn; tauto) Eset) as [(code4 & ->)|(code4 & -> & ->)]; cbn [answer_bool answer_state].
     + apply (Hdel st w4 s4 Ha Hw4 D4).
-    + eexists. eexists. split; [reflexivity|]. split; [reflexivity|]. split; [exact Hw4|exact D4].
+    + eexists. eexists. split; [reflexivity|]. split; [reflexivity|]. split; [exact Hw4|]. split; [exact D4|]. cbn; auto.
   - apply (Hdel st w3 s3 Ha Hw3 D3).
+Qed.
+
+Theorem rename_emulated_refines : forall F old new st (w : sworld sstate),
+  c_auth st = true -> has_cap (bs "VERSION") st = false -> ok_world w -> names_ok (s_peer sstate w) ->
+  length (s_store (s_peer sstate w)) < F -> 3 <= F ->
+  let s := s_peer sstate w in
+  exists out w',
+    runS (renamescript F old new st finish) w = (out, w') /\
+    aresult_of out = Some (fst (rename_abs (fun _ => FNone) s old new)) /\
+    ok_world w' /\ same_data (snd (rename_abs (fun _ => FNone) s old new)) (s_peer sstate w').
+Proof.
+  intros F old new st w Ha Hver Hw Hn HF1 HF3 s.
+  destruct (rename_emulated_refines_st F old new st w s Ha Hver Hw (same_data_refl _) Hn HF1 HF3) as (out & w' & R & A & W & D & _).
+  exists out, w'. auto.
 Qed.
 
 Print Assumptions rename_emulated_refines.
